@@ -86,6 +86,7 @@ type Interp struct {
 	spec      int
 	merges    int
 	curFn     *ssa.Function
+	initBroken map[*ssa.Package]bool
 	assumed   map[*Term]bool
 	pendKeys  []pendKey
 }
@@ -186,6 +187,9 @@ func (in *Interp) newObject(t types.Type, v Value, name string) *Object {
 }
 
 func (in *Interp) global(g *ssa.Global) *Object {
+	if in.initBroken[g.Pkg] {
+		panic(&pathEnd{kind: "unsupported", msg: "global of a package whose initializer is outside reach: " + g.String()})
+	}
 	if o, ok := in.globals[g]; ok {
 		return o
 	}
@@ -285,14 +289,46 @@ func (in *Interp) callFn(caller *Frame, fn *ssa.Function, args []Value, env []Va
 	return in.callSSA(caller, fn, args, env)
 }
 
-func (in *Interp) callSSA(caller *Frame, fn *ssa.Function, args []Value, env []Value) Value {
+// initAbort gives up on the innermost function during package initialisation.
+type initAbort struct{}
+
+func (in *Interp) callSSA(caller *Frame, fn *ssa.Function, args []Value, env []Value) (result Value) {
 	in.depth++
 	if in.depth > 400 {
 		panic(&pathEnd{kind: "budget", msg: "call depth exceeded in " + fn.String()})
 	}
 	savedFn := in.curFn
 	in.curFn = fn
-	defer func() { in.depth--; in.curFn = savedFn }()
+	th := in.cur
+	if th != nil {
+		th.stack = append(th.stack, fn)
+	}
+	defer func() {
+		in.depth--
+		in.curFn = savedFn
+		if th != nil {
+			th.stack = th.stack[:len(th.stack)-1]
+		}
+		if in.noFork > 0 {
+			if r := recover(); r != nil {
+				abort := false
+				if _, ok := r.(initAbort); ok {
+					abort = true
+				}
+				if pe, ok := r.(*pathEnd); ok && (pe.kind == "unwind" || pe.kind == "unsupported" || pe.kind == "budget") {
+					abort = true
+				}
+				if !abort {
+					panic(r)
+				}
+				if fn.Synthetic == "package initializer" {
+					// the package's own initializer could not complete: its globals are unusable
+					in.initBroken[fn.Pkg] = true
+				}
+				result = Poison{}
+			}
+		}
+	}()
 	if in.funcsSeen != nil {
 		in.funcsSeen[fn] = true
 	}
@@ -445,7 +481,23 @@ type Poison struct{}
 func (in *Interp) visitInit(fr *Frame, ins ssa.Instruction) (k continuation) {
 	defer func() {
 		if r := recover(); r != nil {
+			switch r.(type) {
+			case runtime.Error, *GoPanic, *EngineError:
+				// control flow that depends on a poison value: give up on this function
+				switch ins.(type) {
+				case *ssa.If, *ssa.Jump, *ssa.Return, *ssa.RunDefers, *ssa.Panic:
+					panic(initAbort{})
+				}
+			}
 			if _, ok := r.(runtime.Error); ok {
+				if v, isV := ins.(ssa.Value); isV {
+					fr.set(v, Poison{})
+				}
+				k = kNext
+				return
+			}
+			if _, ok := r.(*GoPanic); ok {
+				// a target panic caused by un-modelled environment during package init
 				if v, isV := ins.(ssa.Value); isV {
 					fr.set(v, Poison{})
 				}
@@ -482,7 +534,20 @@ func (in *Interp) goPanicRuntime(msg string) {
 	if in.eng.runtimeErrType != nil {
 		t = in.eng.runtimeErrType
 	}
-	panic(&GoPanic{val: Iface{t: t, v: Str{s: msg}}, trace: "runtime error: " + msg})
+	panic(&GoPanic{val: Iface{t: t, v: Str{s: msg}}, trace: "runtime error: " + msg + in.stackString()})
+}
+
+// stackString names the innermost interpreted functions (diagnostics only).
+func (in *Interp) stackString() string {
+	s := " in"
+	if in.cur == nil {
+		return s
+	}
+	st := in.cur.stack
+	for i, n := len(st)-1, 0; i >= 0 && n < 6; i, n = i-1, n+1 {
+		s += " <- " + st[i].String()
+	}
+	return s
 }
 
 func (in *Interp) visit(fr *Frame, instr ssa.Instruction) continuation {
